@@ -122,10 +122,13 @@ def run_check(prop, tier, seed):
             discharged = len(obligations)
         else:
             broken.append(('proof', coqrun.first_error(out).split(':')[0], coqrun.first_error(out)))
-            # statements in files that did compile still count as discharged
-            built = [f for f in cone if (coqrun.COQ / (f + 'o')).exists()
-                     and (coqrun.COQ / (f + 'o')).stat().st_mtime >= (coqrun.COQ / f).stat().st_mtime]
-            discharged = len(coqrun.count_statements(built))
+            # statements in files that do not depend on the failing file still count as discharged
+            import re as _re
+            m = _re.search(r'File "\./([^"]+\.v)"', out) or _re.search(r'File "([^"]+\.v)"', out)
+            failed = m.group(1) if m else prop.PROPERTY_FILE
+            failed = failed.split('/coq/')[-1]
+            bad = coqrun.dependents_of(failed, cone)
+            discharged = len(coqrun.count_statements([f for f in cone if f not in bad]))
         hits = coqrun.anti_cheat(cone)
         if hits:
             broken.append(('anti-cheat', 'forbidden declaration', '; '.join(hits[:5])))
